@@ -182,26 +182,54 @@ func (g *genCtx) encodeParams(keys []Key, role Role) []Param {
 		}
 		leaves = append(leaves, p)
 	}
-	// positional where possible, otherwise grouped into one or two objects
-	var out []Param
-	var cur *Param
-	for i, p := range leaves {
+	// positional where possible, otherwise grouped into one or two objects;
+	// an object may hold a nested object with one or several fields
+	type pnode struct {
+		leaf   *Param
+		fields []*pnode
+	}
+	var top []*pnode
+	var cur, inner *pnode
+	for i := range leaves {
+		p := &leaves[i]
 		inObj := needObj[i] || (g.ft.Objects && g.r.P(0.3))
 		if !inObj {
-			out = append(out, p)
-			cur = nil
+			top = append(top, &pnode{leaf: p})
+			cur, inner = nil, nil
 			continue
 		}
 		if cur == nil || g.r.P(0.2) {
-			out = append(out, Param{Kind: PObj})
-			cur = &out[len(out)-1]
+			cur, inner = &pnode{}, nil
+			top = append(top, cur)
 		}
-		if g.r.P(0.15) {
+		switch {
+		case inner != nil && g.r.P(0.5):
+			inner.fields = append(inner.fields, &pnode{leaf: p})
+		case g.r.P(0.15):
 			// nest one level deeper
-			cur.Fields = append(cur.Fields, Param{Kind: PObj, Fields: []Param{p}})
-		} else {
-			cur.Fields = append(cur.Fields, p)
+			inner = &pnode{fields: []*pnode{{leaf: p}}}
+			cur.fields = append(cur.fields, inner)
+		default:
+			cur.fields = append(cur.fields, &pnode{leaf: p})
+			if g.r.P(0.5) {
+				inner = nil
+			}
 		}
+	}
+	var conv func(n *pnode) Param
+	conv = func(n *pnode) Param {
+		if n.leaf != nil {
+			return *n.leaf
+		}
+		o := Param{Kind: PObj}
+		for _, f := range n.fields {
+			o.Fields = append(o.Fields, conv(f))
+		}
+		return o
+	}
+	var out []Param
+	for _, n := range top {
+		out = append(out, conv(n))
 	}
 	return out
 }
@@ -936,4 +964,73 @@ func (g *genCtx) tmplDecorateFirst() {
 	inv := g.newFunc(RoleInv)
 	inv.Params = []Param{keyParam(k)}
 	g.addOp(Op{Kind: OpInvoke, Scope: sub[g.r.Intn(len(sub))], Fn: inv.ID, Tag: "decorate-first"})
+}
+
+// tmplSoftMix: a multi-result constructor feeds a group and provides a single
+// value; a consumer asks for the group softly next to (in any field order, at
+// any nesting) a field that needs the single value: the feeder's member must
+// be there although the soft field alone would never have run it.
+func (g *genCtx) tmplSoftMix() {
+	if len(g.ft.Groups) == 0 || g.ft.NT < 2 {
+		return
+	}
+	s := g.pickScope()
+	path := g.m.Path(s)
+	fs := path[g.r.Intn(len(path))]
+	grp := g.group()
+	p := g.r.Perm(g.ft.NT)
+	a, m := p[0], p[1]
+	ka := Key{T: a, Name: g.name()}
+	if len(g.m.S[fs].Prov[ka]) > 0 {
+		return
+	}
+	f := g.newFunc(RoleCtor)
+	member := Result{Kind: RGroup, T: m, Group: grp, Flatten: g.ft.Flatten && g.r.P(0.3)}
+	single := Result{Kind: RSingle, T: a, Name: ka.Name}
+	fields := []Result{member, single}
+	if g.r.P(0.5) {
+		fields = []Result{single, member}
+	}
+	f.Results = []Result{{Kind: RObj, Fields: fields}}
+	f.HasErr = g.r.P(0.5)
+	i := g.addOp(Op{Kind: OpProvide, Scope: fs, Fn: f.ID, Tag: "soft-mix"})
+	if g.m.PredictProvide(fs, f) == PredOK {
+		g.m.AddCtor(fs, i, f)
+	}
+	soft := Param{Kind: PGroup, T: m, Group: grp, Soft: true}
+	need := Param{Kind: PSingle, T: a, Name: ka.Name, Opt: g.r.P(0.2)}
+	var other Param
+	switch g.r.Intn(3) {
+	case 0:
+		other = need
+	case 1:
+		other = Param{Kind: PObj, Fields: []Param{need}}
+	default:
+		// the nested object has a soft group of its own
+		inner := []Param{need, {Kind: PGroup, T: m, Group: g.group(), Soft: true}}
+		if g.r.P(0.5) {
+			inner[0], inner[1] = inner[1], inner[0]
+		}
+		other = Param{Kind: PObj, Fields: inner}
+	}
+	obj := []Param{soft, other}
+	if g.r.P(0.5) {
+		obj = []Param{other, soft}
+	}
+	inv := g.newFunc(RoleInv)
+	inv.Params = []Param{{Kind: PObj, Fields: obj}}
+	if g.r.P(0.3) {
+		// the same shape as a constructor's parameter object
+		c := g.newFunc(RoleCtor)
+		c.Params = inv.Params
+		rt := p[g.r.Intn(len(p))]
+		c.Results = []Result{{Kind: RSingle, T: rt}}
+		c.OptName = "n2"
+		i := g.addOp(Op{Kind: OpProvide, Scope: s, Fn: c.ID, Tag: "soft-mix"})
+		if g.m.PredictProvide(s, c) == PredOK {
+			g.m.AddCtor(s, i, c)
+		}
+		inv.Params = []Param{{Kind: PObj, Fields: []Param{{Kind: PSingle, T: rt, Name: "n2"}}}}
+	}
+	g.addOp(Op{Kind: OpInvoke, Scope: s, Fn: inv.ID, Tag: "soft-mix"})
 }
